@@ -41,7 +41,9 @@ _INT_ITEMS = st.one_of(
     st.sampled_from([0, -1, -2, 2 ** 31, 2 ** 32 - 1, 2 ** 32, 5 + 2 ** 32, 5 - 2 ** 32, 5 + M61, M61, M61 - 1, -M61,
                      -2 ** 31, 2 ** 63 - 1, -2 ** 63]),
 )
-_STR_ITEMS = st.one_of(st.sampled_from(['', 'a', 'b', 'ab', 'ba', '0', '1', '-1', '5', 'é', '中', ' ', 'a\x00']), _TEXT)
+_LONG = ['https://news.example.org/' + 'x' * 240 + tail for tail in ('', 'a', 'b', '/a?b=1')] + ['y' * 256, 'y' * 257, 'y' * 300]
+_STR_ITEMS = st.one_of(st.sampled_from(['', 'a', 'b', 'ab', 'ba', '0', '1', '-1', '5', 'é', '中', ' ', 'a\x00']), _TEXT,
+                       st.sampled_from(_LONG))     # long keys sharing a 256-character prefix (URLs, paths)
 _ITEM = st.one_of(_INT_ITEMS, _STR_ITEMS)
 
 
